@@ -15,7 +15,7 @@ import (
 	"verifharness/internal/gen"
 )
 
-// C12 — properties behave as an independent key-to-value map for each owner.
+// C12 - properties behave as an independent key-to-value map for each owner.
 //
 // Monitor: reference model map[owner]map[key]value; after EVERY step every
 // (owner, key) pair seen so far is read back through every accessor of the
